@@ -19,6 +19,105 @@ import warnings
 import numpy as np
 
 
+def run_tract(toks, rows_of, enc_elem):
+    """Tractogram layer: `<id> T <op> ...` -> `<id>\t<ops>\t<step>;...\t` with
+    step = <res>#<i>=<streamlines>|<data_per_point['c'] or ~>&...
+    ops: tnew:<elems> ('-' = Tractogram()), tadd:i:j, tiadd:i:j, tcopy:i, tget:i:<idx>,
+    tset:i:k:v / tsetp:i:k:v (element k of streamlines / data_per_point['c']),
+    tsets:i:<idx>:v / tsetsp:i:<idx>:v, tiop:i:<fn> / tiopp:i:<fn> (in-place arithmetic), tdrop:i.
+    A streamline row of value v is [v, v, v]; its per-point datum is v + 1000, the per-streamline
+    datum 'm' is first value + 5000."""
+    import operator
+    from nibabel.streamlines import Tractogram
+
+    def mk(estr):
+        if estr == '-':
+            return Tractogram()
+        els = [[] if e == 'e' else [int(v) for v in e.split('.')] for e in estr.split('/')]
+        sl = [np.array([[v, v, v] for v in e], dtype='f4').reshape(len(e), 3) for e in els]
+        pp = [np.array([[v + 1000] for v in e], dtype='f4').reshape(len(e), 1) for e in els]
+        ps = np.array([[(e[0] if e else 0) + 5000] for e in els], dtype='f4').reshape(len(els), 1)
+        return Tractogram(sl, data_per_point={'c': pp}, data_per_streamline={'m': ps}, affine_to_rasmm=np.eye(4))
+
+    def index(s):
+        p = s.split(',')
+        if p[0] == 's':
+            return slice(*[None if x == 'n' else int(x) for x in p[1:]])
+        if p[0] == 'l':
+            return [int(x) for x in p[1:]]
+        return np.array([x == '1' for x in p[1:]], dtype=bool)
+
+    def enc(seq):
+        els = [rows_of(x) for x in seq]
+        return '-' if not els else '/'.join(enc_elem(e) for e in els)
+
+    def observe(ts):
+        parts = []
+        for i, t in enumerate(ts):
+            if t is None:
+                continue
+            pp = enc(t.data_per_point['c']) if 'c' in t.data_per_point else '~'
+            parts.append(f'{i}={enc(t.streamlines)}|{pp}')
+        return '&'.join(parts)
+
+    def fn_apply(seq, fn):
+        p = fn.split(',')
+        return getattr(operator, 'i' + p[0])(seq, int(p[1]))
+
+    hid = toks[0]
+    ts, steps = [], []
+    for tok in toks[2:]:
+        f = tok.split(':')
+        res = 'ok'
+        try:
+            o = f[0]
+            if o == 'tnew':
+                ts.append(mk(f[1]))
+            elif o == 'tadd':
+                ts.append(ts[int(f[1])] + ts[int(f[2])])
+            elif o == 'tiadd':
+                t = ts[int(f[1])]
+                t += ts[int(f[2])]
+                del t
+            elif o == 'tcopy':
+                ts.append(ts[int(f[1])].copy())
+            elif o == 'tget':
+                ts.append(ts[int(f[1])][index(f[2])])
+            elif o == 'tset':
+                ts[int(f[1])].streamlines[int(f[2])] = int(f[3])
+            elif o == 'tsetp':
+                ts[int(f[1])].data_per_point['c'][int(f[2])] = int(f[3])
+            elif o == 'tsets':
+                ts[int(f[1])].streamlines[index(f[2])] = int(f[3])
+            elif o == 'tsetsp':
+                ts[int(f[1])].data_per_point['c'][index(f[2])] = int(f[3])
+            elif o == 'tiop':
+                s_ = ts[int(f[1])].streamlines
+                fn_apply(s_, f[2])
+                del s_
+            elif o == 'tiopp':
+                s_ = ts[int(f[1])].data_per_point['c']
+                fn_apply(s_, f[2])
+                del s_
+            elif o == 'tdrop':
+                ts[int(f[1])] = None
+            else:
+                res = 'err:BadOp'
+        except IndexError:
+            res = 'err:Index'
+        except ValueError:
+            res = 'err:Value'
+        except KeyError:
+            res = 'err:Key'
+        except StopIteration:
+            res = 'err:StopIteration'
+        except Exception as e:
+            res = 'err:Other:' + type(e).__name__
+        steps.append(res + '#' + observe(ts))
+    sys.stdout.write(hid + '\t' + ' '.join(toks[2:]) + '\t' + ';'.join(steps) + '\t\n')
+    sys.stdout.flush()
+
+
 def main():
     warnings.simplefilter('ignore')
     import nibabel
@@ -71,6 +170,9 @@ def main():
     for line in sys.stdin:
         toks = line.split()
         if not toks:
+            continue
+        if toks[1] == 'T':
+            run_tract(toks, rows_of, enc_elem)
             continue
         hid, shape, kind = toks[0], toks[1], toks[2]
         cs = tuple(int(d) for d in shape.split('x'))
